@@ -1,4 +1,5 @@
 import UF.Compose2.Dispatch
+import UF.Compose2.DomainNameChars
 import UF.Props.C18
 /-
   C18 on the COMPLETE model of `rules.NewRule` (integration group I2).
@@ -46,13 +47,13 @@ theorem c18_dispatch_full (ext : Ext) (reShortcut : Bytes → Bytes) (line : Byt
   rfl
 
 /-- The same for a bare domain name (`IsDomainName` is group E's state machine, no longer a
-    parameter). -/
+    parameter; it accepts only letters, digits, '.' and '-', so the name is a plain token:
+    `isPlainToken_of_isDomainName`). -/
 theorem c18_dispatch_bare_full (ext : Ext) (reShortcut : Bytes → Bytes) (line : Bytes)
     (name trail cmt : Bytes) (listID : Int)
     (htrim : trimSpace line = hostLineBare name trail cmt)
     (hn : isHostToken name = true) (hdn : E.isDomainNameC name = .ok true)
     (ht : allBlank trail = true) (hc : isCommentTail cmt = true)
-    (hnd : isPlainToken name = true)
     (hout : commentIsMarker trail cmt = false) :
     newRuleFull ext reShortcut line listID =
       .ok (some (.host { text := hostLineBare name trail cmt, listID := listID, hostnames := [name],
@@ -61,7 +62,8 @@ theorem c18_dispatch_bare_full (ext : Ext) (reShortcut : Bytes → Bytes) (line 
     unfold isDomainNameB
     rw [hdn]
   rw [newRuleFull_kind, htrim,
-    c18_dispatch_bare ext isDomainNameB name trail cmt listID hn hdn' ht hc hnd hout]
+    c18_dispatch_bare ext isDomainNameB name trail cmt listID hn hdn' ht hc
+      (Compose.isPlainToken_of_isDomainName hdn) hout]
   rfl
 
 /-- A host rule produced by the complete model answers a query iff the name is listed. -/
